@@ -173,14 +173,12 @@ theorem rc_compileBlocks (cons : List Con) (d d' : Nat) (rows : List CRow) (K : 
   obtain ⟨e2', he2', hR2⟩ := rc_mapM_rel rc_BRel _ _ _ e2 he2 (fun a _ p hp => rc_epiBlock a d d' p hp)
   obtain ⟨e3', he3', hR3⟩ := rc_mapM_rel rc_BRel _ _ _ e3 he3 (fun c _ p hp => rc_conRows c d d' p hp)
   have hR := rc_forall₂_flatMap (List.rel_append (List.rel_append hR1 hR2) hR3)
-  by_cases he : ((e1 ++ e2 ++ e3).flatMap (·.1)).isEmpty = true
-  · rw [if_pos he, rc_throw_ok] at h; exact h.elim
-  · rw [if_neg he, rc_pure_ok] at h
-    obtain ⟨rfl, rfl⟩ := Prod.mk.inj h
-    refine ⟨_, ?_, hR.1⟩
-    rw [rc_bind_ok]; refine ⟨e1', he1', ?_⟩
-    rw [rc_bind_ok]; refine ⟨e2', he2', ?_⟩
-    rw [rc_bind_ok]; refine ⟨e3', he3', ?_⟩
-    rw [if_neg (by rw [rc_isEmpty_eq hR.1]; exact he), rc_pure_ok, hR.2]
+  rw [rc_pure_ok] at h
+  obtain ⟨rfl, rfl⟩ := Prod.mk.inj h
+  refine ⟨_, ?_, hR.1⟩
+  rw [rc_bind_ok]; refine ⟨e1', he1', ?_⟩
+  rw [rc_bind_ok]; refine ⟨e2', he2', ?_⟩
+  rw [rc_bind_ok]; refine ⟨e3', he3', ?_⟩
+  rw [rc_pure_ok, hR.2]
 
 end Sageopt.Compile
